@@ -514,6 +514,7 @@ impl<'a, RK: RadioKind> Exec<'a, RK> {
         }
 
         // ---- the call ----
+        let faults_before = self.world.borrow().env.counters.iter().filter(|(k, _)| k.starts_with("fault.")).map(|(_, v)| *v).sum::<u64>();
         let before_ref = self.ref_mode;
         let before = before_ref.unwrap_or(hm0);
         let chip_before = self.chip_class();
@@ -621,6 +622,12 @@ impl<'a, RK: RadioKind> Exec<'a, RK> {
                     format!("{}() failed with {:?}; afterwards the chip is{} in standby and the driver believes {:?}", step.op.name(), res, if chip_sb { "" } else { " not" }, hm1),
                 );
             }
+        }
+        // the same when the only disturbance of the whole run is an SPI fault inside this very call: a lost bus
+        // transaction must make the call fail, not leave it waiting for the BUSY line of a chip that never woke up
+        let only_this_spi_fault = faults_before == 0 && log.fault_fired && matches!(step.fault, Some(f) if f.kind == FaultKind::Spi);
+        if self.is_126x && res == Res::HungBusy && only_this_spi_fault {
+            self.violate("C14.commanded-while-asleep", format!("{fam}|{}|waits-for-busy-after-lost-wake-up", step.op.name()), format!("{}(): an SPI transaction of this call failed, yet the call went on and now waits for BUSY to go low while the chip is still asleep (driver mode {:?})", step.op.name(), hm0));
         }
         if self.is_126x && res == Res::HungBusy && self.world.borrow().env.clean_before_drop() {
             self.violate("C14.commanded-while-asleep", format!("{fam}|{}|waits-for-busy-of-sleeping-chip", step.op.name()), format!("{}() waits for BUSY to go low while the chip sleeps: the driver (mode {:?}) does not know the chip is asleep", step.op.name(), hm0));
